@@ -8,6 +8,7 @@ import OpcuaModel.Model.Write
 import OpcuaModel.Model.Validate
 import OpcuaModel.Model.Enum
 import OpcuaModel.Model.Meta
+import OpcuaModel.Model.Proto
 /-! Line-protocol driver: one JSON object per input line → one JSON object per output line.
     It only *evaluates* the model's definitions; it contains no logic of its own beyond decoding. -/
 open Lean Opcua Opcua.IO
@@ -537,6 +538,112 @@ def opMetaFilter (j : Json) : Except String Json := do
   let nss := (← getArr j "namespaces").toList.map optStrOf
   return Json.mkObj [("kept", Json.arr ((excludeFiles files nss).map fun f => Json.str (ofStr f.name)).toArray)]
 
+/-! ### side-file protocol ops (C19, C20) -/
+namespace ProtoIO
+open Opcua.Proto
+
+def fileOf (j : Json) : Except String (String × File) := do
+  let path := ofStr (← getStr j "path")
+  let kind := ofStr (← getStr j "kind")
+  if kind == "doc" then return (path, .doc (← getNat j "c"))
+  else
+    let g ← getNat j "g"
+    match j.getObjVal? "h" with
+    | .ok (Json.num n) => return (path, .side g (some n.mantissa.toNat))
+    | _ => return (path, .side g none)
+
+def fsOf (files : List (String × File)) : FS String := fun p => files.lookup p
+
+def natList (j : Json) (k : String) : Except String (List Nat) := do
+  (← getArr j k).toList.mapM fun x => match x with
+    | Json.num n => pure n.mantissa.toNat
+    | _ => throw s!"{k}: number expected"
+
+def big : Nat := 1000000
+
+def semOf (j : Json) : Except String Sem := do
+  let nwf ← natList j "not_wf"
+  let bh ← natList j "bad_header"
+  let bb ← natList j "bad_body"
+  return ⟨fun c => !nwf.contains c, fun c => if bh.contains c then none else some c,
+    -- the generated documents use namespace index 1, which an empty header does not declare
+    fun c ho => if bb.contains c then none else match ho with | none => none | some h => some (c * big + (h + 1))⟩
+
+def errName : Err → String
+  | .io => "io" | .syntax => "syntax" | .decode => "decode" | .element => "element" | .fault => "fault"
+
+def pcJson (pc : PC) : Json :=
+  match pc with
+  | .done (.ok r) =>
+    let hc := r % big
+    Json.mkObj [("ok", Json.mkObj [("body", Json.num (r / big)), ("header", if hc = 0 then Json.null else Json.num (hc - 1 : Nat))])]
+  | .done (.err e) => Json.mkObj [("err", Json.str (errName e))]
+  | pc => Json.mkObj [("at", Json.str pc.label)]
+
+def fileJson (p : String) : Option File → Json
+  | none => Json.mkObj [("path", Json.str p), ("kind", Json.str "absent")]
+  | some (.doc c) => Json.mkObj [("path", Json.str p), ("kind", Json.str "doc"), ("c", Json.num c)]
+  | some (.side g ho) => Json.mkObj [("path", Json.str p), ("kind", Json.str "side"), ("g", Json.num g),
+      ("h", match ho with | none => Json.null | some h => Json.num h)]
+
+def sideName (x : String) : String := x ++ "_parsed.json"
+
+/-- one parser, a set of failing operation indices -/
+def opSolo (j : Json) : Except String Json := do
+  let files ← (← getArr j "files").toList.mapM fileOf
+  let S ← semOf (← j.getObjVal? "sem")
+  let x := ofStr (← getStr j "xml")
+  let faults ← natList j "faults"
+  let flt : Nat → Bool := fun i => faults.contains i
+  let st := (fsOf files, start x (sideName x))
+  let out := runF S flt fuel 0 st
+  let watch := (files.map (·.1) ++ [x, sideName x]).eraseDups
+  return Json.mkObj [("outcome", pcJson out.2.pc), ("trace", Json.arr ((traceF S flt fuel 0 st).map Json.str).toArray),
+    ("files", Json.arr (watch.map fun p => fileJson p (out.1 p)).toArray)]
+
+/-- a history of edits, removals and parses (each with at most one failing operation) of one input -/
+def opHistory (j : Json) : Except String Json := do
+  let files ← (← getArr j "files").toList.mapM fileOf
+  let S ← semOf (← j.getObjVal? "sem")
+  let x := ofStr (← getStr j "xml")
+  let ops ← (← getArr j "ops").toList.mapM fun o => do
+    let k := ofStr (← getStr o "k")
+    if k == "edit" then return HOp.edit (← getNat o "c")
+    else if k == "remove" then return HOp.remove
+    else match o.getObjVal? "fault" with
+      | .ok (Json.num n) => return HOp.parse (some n.mantissa.toNat)
+      | _ => return HOp.parse none
+  let out := history S x (sideName x) ops (fsOf files)
+  let watch := (files.map (·.1) ++ [x, sideName x]).eraseDups
+  return Json.mkObj [("outcomes", Json.arr (out.2.map pcJson).toArray),
+    ("files", Json.arr (watch.map fun p => fileJson p (out.1 p)).toArray)]
+
+/-- several files in one call -/
+def opMany (j : Json) : Except String Json := do
+  let files ← (← getArr j "files").toList.mapM fileOf
+  let S ← semOf (← j.getObjVal? "sem")
+  let xs := (← getArr j "inputs").toList.map fun x => match x with | Json.str s => s | _ => ""
+  let out := parseMany S sideName xs (fsOf files)
+  let watch := (files.map (·.1) ++ xs ++ xs.map sideName).eraseDups
+  return Json.mkObj [("outcomes", Json.arr (out.2.map pcJson).toArray),
+    ("files", Json.arr (watch.map fun p => fileJson p (out.1 p)).toArray)]
+
+/-- several parsers under a schedule -/
+def opSched (j : Json) : Except String Json := do
+  let files ← (← getArr j "files").toList.mapM fileOf
+  let S ← semOf (← j.getObjVal? "sem")
+  let xs := (← getArr j "inputs").toList.map fun x => match x with | Json.str s => s | _ => ""
+  let sched ← natList j "sched"
+  let ps : Nat → Proc String := fun i => let x := xs.getD i ""; start x (sideName x) i
+  let st := (fsOf files, ps)
+  let out := runN S sched st
+  let watch := (files.map (·.1) ++ xs ++ xs.map sideName).eraseDups
+  return Json.mkObj [("outcomes", Json.arr ((List.range xs.length).map fun i => pcJson (out.2 i).pc).toArray),
+    ("trace", Json.arr ((traceN S sched st).map fun e => Json.arr #[Json.num e.1, Json.str e.2]).toArray),
+    ("files", Json.arr (watch.map fun p => fileJson p (out.1 p)).toArray)]
+
+end ProtoIO
+
 def dispatch (j : Json) : Except String Json := do
   let op ← (← j.getObjVal? "op").getStr?
   match op with
@@ -566,6 +673,10 @@ def dispatch (j : Json) : Except String Json := do
   | "enum.transform" => opEnumTransform j
   | "meta.nsdata" => opMetaNsData j
   | "meta.filter" => opMetaFilter j
+  | "proto.solo" => ProtoIO.opSolo j
+  | "proto.history" => ProtoIO.opHistory j
+  | "proto.many" => ProtoIO.opMany j
+  | "proto.sched" => ProtoIO.opSched j
   | "ping" => return Json.mkObj [("pong", Json.bool true)]
   | _ => throw s!"unknown op {op}"
 
